@@ -301,6 +301,12 @@ DIRECTED = [
     ("Select(Select(EventDataset(), lambda e: (e.jets, fadd(*e.vals))), lambda t: Count(t[0]))", False),
     ("Select(Select(EventDataset(), lambda e: (e.met, [*e.a, e.b])), lambda t: t[0] + 1)", False),
     ("Select(Select(EventDataset(), lambda e: [e.x, e.jets.Select(lambda j: fadd(*j.v, k=1))]), lambda t: t[0] * 2)", False),
+    # the packaged record passed WHOLE through a called lambda that has no parameters, or is given its arguments by keyword in another
+    # order than declared
+    ("Select(Select(EventDataset(), lambda e: (e.x, e.y)), lambda t: (lambda: t)()[1] + (lambda: t[0])())", False),
+    ("Select(Select(EventDataset(), lambda e: {'pt': e.x, 'eta': e.y}), lambda d: (lambda: d)()['pt'] + (lambda: d)().eta)", False),
+    ("Select(Select(EventDataset(), lambda e: (e.jets, e.met)), lambda t: (lambda: t[0])().Select(lambda p: p.pt + t[1]))", False),
+    ("Select(Select(EventDataset(), lambda e: (e.x, e.y)), lambda t: (lambda u, k: u[0] * k)(k=2, u=t) + (lambda u, k, m: u[1] * k + m)(m=1, k=3, u=t))", False),
     # the early-binding idiom in a nested stage lambda: the packaged value goes through a default named like the enclosing binder
     ("Select(Select(EventDataset(), lambda e: (e.jets, e.met)), lambda t: Select(t[0], lambda j, t=t[1]: j.pt + t))", False),
     ("Select(Select(EventDataset(), lambda e: {'j': e.jets, 'm': e.met}), lambda t: Count(Where(t.j, lambda j, *, t=t['m']: j.pt > t)))", False),
